@@ -117,6 +117,22 @@ class Finder(ast.NodeVisitor):
             s, e = self.span(node.func)
             txt = self.src[s:e]
             self.add(s, e, txt[:-len(name)] + SWAP_NAMES[name], "call %s -> %s" % (name, SWAP_NAMES[name]), node.lineno)
+        # "shallow instead of deep copy": drop a copy
+        if name in ("copy_bins", "copy", "list", "sorted_copy") and len(node.args) == 1 and not node.keywords and name != "copy":
+            cs, ce = self.span(node)
+            as_, ae = self.span(node.args[0])
+            if not isinstance(node.args[0], (ast.GeneratorExp, ast.ListComp, ast.Call)) or name == "copy_bins":
+                self.add(cs, ce, "(" + self.src[as_:ae] + ")", "drop %s(...)" % name, node.lineno)
+        if isinstance(node.func, ast.Attribute) and name == "copy" and not node.args:
+            cs, ce = self.span(node)
+            vs, ve = self.span(node.func.value)
+            self.add(cs, ce, "(" + self.src[vs:ve] + ")", "drop .copy()", node.lineno)
+        # off-by-one in a loop bound: range(stop) -> range(stop - 1), range(a, stop) -> range(a, stop - 1)
+        if isinstance(node.func, ast.Name) and name == "range" and 1 <= len(node.args) <= 2:
+            st = node.args[-1]
+            ss, se = self.span(st)
+            self.add(ss, se, "(" + self.src[ss:se] + ") - 1", "range stop - 1", node.lineno)
+            self.add(ss, se, "(" + self.src[ss:se] + ") + 1", "range stop + 1", node.lineno)
         if name in ("deepcopy",):
             s, e = self.span(node.func)
             a0 = node.args[0] if node.args else None
@@ -144,6 +160,9 @@ class Finder(ast.NodeVisitor):
         self.generic_visit(node)
 
     def visit_AugAssign(self, node):
+        if node.lineno == node.end_lineno:
+            s, e = self.span(node)
+            self.add(s, e, "pass", "delete statement %s" % self.src[s:e][:50], node.lineno)
         if type(node.op) in AUG:
             tok, rep = AUG[type(node.op)]
             _, a_end = self.span(node.target)
@@ -165,6 +184,9 @@ class Finder(ast.NodeVisitor):
         self.generic_visit(node)
 
     def visit_UnaryOp(self, node):
+        if isinstance(node.op, ast.USub) and isinstance(node.operand, ast.Constant) and node.operand.value == 1:
+            s, e = self.span(node)
+            self.add(s, e, "0", "constant -1 -> 0", node.lineno)       # last element -> first element
         if isinstance(node.op, ast.Not):
             s, e = self.span(node)
             os_, oe = self.span(node.operand)
@@ -230,12 +252,16 @@ def mutants_of(path_rel):
     return res
 
 
-def gen(outdir, n, seed):
+def gen(outdir, n, seed, exclude=None):
     rng = random.Random(seed)
     os.makedirs(outdir, exist_ok=True)
+    done = set()
+    if exclude:
+        for m in json.load(open(os.path.join(exclude, "mutants.json")))["mutants"]:
+            done.add((m["file"], m["line"], m["op"]))
     allm = {}
     for f in OWNERS:
-        allm[f] = mutants_of(f)
+        allm[f] = [m for m in mutants_of(f) if (m["file"], m["line"], m["op"]) not in done]
     total = sum(len(v) for v in allm.values())
     chosen = []
     for f, ms in allm.items():
@@ -346,7 +372,7 @@ def run(outdir, jobs):
 if __name__ == "__main__":
     cmd, outdir = sys.argv[1], sys.argv[2]
     if cmd == "gen":
-        gen(outdir, int(sys.argv[3]) if len(sys.argv) > 3 else 150, int(sys.argv[4]) if len(sys.argv) > 4 else 1)
+        gen(outdir, int(sys.argv[3]) if len(sys.argv) > 3 else 150, int(sys.argv[4]) if len(sys.argv) > 4 else 1, sys.argv[5] if len(sys.argv) > 5 else None)
     elif cmd == "test":
         test(outdir, int(sys.argv[3]) if len(sys.argv) > 3 else 8)
     elif cmd == "run":
